@@ -17,6 +17,7 @@ package main
 
 import (
 	"bufio"
+	"encoding/base64"
 	"encoding/json"
 	"fmt"
 	"io"
@@ -26,12 +27,14 @@ import (
 	"net/http/httptest"
 	"os"
 	"path/filepath"
+	"reflect"
 	"sort"
 	"strings"
 	"time"
 
 	c "github.com/buzzfeed/sso/internal/zz_verif/common"
 
+	"github.com/buzzfeed/sso/internal/pkg/aead"
 	"github.com/buzzfeed/sso/internal/pkg/sessions"
 	"github.com/buzzfeed/sso/internal/proxy"
 )
@@ -49,6 +52,11 @@ type world struct {
 	Inject     [][2]string // sorted by key, canonical keys distinct
 	Allowed    []string    // UpstreamConfig.AllowedGroups (sorted)
 	FavSkip    bool        // a skip_auth_regex of this world matches /favicon.ico
+	// ConfigFlags: the boolean upstream options of this world come from the configuration
+	// documents alone (environment + upstream YAML through LoadConfig / SetUpstreamConfigs / New, as
+	// cmd/sso-proxy/main.go boots); the shim that sets them on the resolved config is not used.
+	ConfigFlags bool
+	BootErr     string // the configuration path refused to boot this world
 }
 
 type sessSpec struct {
@@ -128,12 +136,131 @@ func buildWorlds(backend *c.Backend, auth *c.FakeAuth, dir string) []*world {
 			opts.DefaultDomains = []string{"*"}
 		}
 		pw, err := c.BuildProxy(opts, auth)
-		c.Must(err)
 		w := &world{Name: s.name, pw: pw, CookieName: s.cookie, Inject: inj, Allowed: s.allowed, FavSkip: s.favSkip}
-		w.srv = httptest.NewServer(pw.Handler)
+		if err != nil {
+			// SetUpstreamConfigs / New of the tree under test refuse a configuration the modelled tree
+			// accepts: reported through the judge as a broken correspondence
+			w.BootErr = "BuildProxy: " + err.Error()
+		} else {
+			w.srv = httptest.NewServer(pw.Handler)
+		}
 		ws = append(ws, w)
 	}
+	ws = append(ws, bootFromEnvironment(backend, auth, dir))
 	return ws
+}
+
+// boolLeaves lists the boolean fields below a struct type as tag paths (tag key "mapstructure" or "yaml").
+func boolLeaves(t reflect.Type, tagKey string, prefix []string) [][]string {
+	var out [][]string
+	for i := 0; i < t.NumField(); i++ {
+		f := t.Field(i)
+		tag := strings.Split(f.Tag.Get(tagKey), ",")[0]
+		if tag == "" || tag == "-" {
+			continue
+		}
+		path := append(append([]string{}, prefix...), tag)
+		switch f.Type.Kind() {
+		case reflect.Bool:
+			out = append(out, path)
+		case reflect.Struct:
+			out = append(out, boolLeaves(f.Type, tagKey, path)...)
+		}
+	}
+	return out
+}
+
+func tagOf(t reflect.Type, field, tagKey string) string {
+	f, ok := t.FieldByName(field)
+	if !ok {
+		return strings.ToLower(field)
+	}
+	return strings.Split(f.Tag.Get(tagKey), ",")[0]
+}
+
+// bootFromEnvironment builds one world exactly as cmd/sso-proxy/main.go does: process environment ->
+// proxy.LoadConfig -> Validate -> SetUpstreamConfigs (upstream YAML file) -> proxy.New. The
+// configuration shape is "deployment-wide defaults on, this upstream opts out": every boolean
+// deployment default the tree under test knows (the bool fields of proxy.DefaultConfig, found by
+// reflection; none on the unchanged tree) is switched on in the environment, and the upstream's
+// options say `false` explicitly for every boolean option of proxy.OptionsConfig
+// (pass_access_token, skip_auth_preflight, ...). What the operator wrote for this upstream is
+// therefore: access token NOT passed, preflight NOT exempt from authentication.
+func bootFromEnvironment(backend *c.Backend, auth *c.FakeAuth, dir string) *world {
+	w := &world{Name: "env-boot-opt-out", CookieName: "_sso_proxy", Allowed: stdAllowed, ConfigFlags: true}
+	fail := func(step string, err error) *world {
+		w.BootErr = step + ": " + err.Error()
+		return w
+	}
+	var y strings.Builder
+	y.WriteString("- service: c03env\n  default:\n    from: " + host + "\n    to: " + backend.HostPort() + "\n    options:\n")
+	y.WriteString("      skip_auth_regex:\n        - ^/public\n")
+	for _, pth := range boolLeaves(reflect.TypeOf(proxy.OptionsConfig{}), "yaml", nil) {
+		if len(pth) == 1 {
+			y.WriteString("      " + pth[0] + ": false\n")
+		}
+	}
+	f, err := ioutil.TempFile(dir, "upstreams-env-*.yml")
+	c.Must(err)
+	f.WriteString(y.String())
+	f.Close()
+	defer os.Remove(f.Name())
+
+	env := map[string]string{
+		"UPSTREAM_CONFIGFILE":     f.Name(),
+		"UPSTREAM_CLUSTER":        "sso",
+		"UPSTREAM_SCHEME":         "http",
+		"UPSTREAM_DEFAULT_GROUPS": strings.Join(stdAllowed, ","),
+		"SESSION_COOKIE_SECRET":   base64.StdEncoding.EncodeToString(c.FixedSecret),
+		"SESSION_COOKIE_SECURE":   "false",
+		"SESSION_TTL_VALID":       "1h",
+		"SESSION_TTL_GRACEPERIOD": "1h",
+		"CLIENT_ID":               "client-id",
+		"CLIENT_SECRET":           "client-secret",
+		"PROVIDER_URL_EXTERNAL":   auth.Srv.URL,
+		"LOGGING_ENABLE":          "false",
+	}
+	ct := reflect.TypeOf(proxy.Configuration{})
+	prefix := []string{tagOf(ct, "UpstreamConfigs", "mapstructure"), tagOf(reflect.TypeOf(proxy.UpstreamConfigs{}), "DefaultConfig", "mapstructure")}
+	var defaultsOn []string
+	for _, pth := range boolLeaves(reflect.TypeOf(proxy.DefaultConfig{}), "mapstructure", prefix) {
+		name := strings.ToUpper(strings.Join(pth, "_"))
+		env[name] = "true"
+		defaultsOn = append(defaultsOn, name)
+	}
+	saved := os.Environ()
+	os.Clearenv()
+	for k, v := range env {
+		os.Setenv(k, v)
+	}
+	cfg, err := proxy.LoadConfig()
+	os.Clearenv()
+	for _, kv := range saved {
+		if i := strings.IndexByte(kv, '='); i > 0 {
+			os.Setenv(kv[:i], kv[i+1:])
+		}
+	}
+	if err != nil {
+		return fail("LoadConfig", err)
+	}
+	if err := cfg.Validate(); err != nil {
+		return fail("Validate", err)
+	}
+	if err := proxy.SetUpstreamConfigs(&cfg.UpstreamConfigs, cfg.SessionConfig.CookieConfig, &cfg.ServerConfig); err != nil {
+		return fail("SetUpstreamConfigs", err)
+	}
+	sc, err := proxy.NewStatsdClient("127.0.0.1", 8125)
+	c.Must(err)
+	p, err := proxy.New(cfg, sc)
+	if err != nil {
+		return fail("New", err)
+	}
+	cipher, err := aead.NewMiscreantCipher(c.FixedSecret)
+	c.Must(err)
+	w.pw = &c.ProxyWorld{Handler: p, Auth: auth, Cfg: cfg, Secret: c.FixedSecret, Cipher: cipher, CookieName: w.CookieName}
+	w.srv = httptest.NewServer(p)
+	w.Name += " defaults-on=" + strings.Join(defaultsOn, ",")
+	return w
 }
 
 func (w *world) reset() {
@@ -194,7 +321,14 @@ var owsForms = [][2]string{{" ", ""}, {"", ""}, {"  ", " "}, {"\t", "\t "}, {" "
 
 func run(ws []*world, backend *c.Backend, cs caseSpec, r *c.Rng) c.Case {
 	w := ws[cs.World]
-	proxy.VerifC03SetFlags(&w.pw.Cfg, cs.Pass, cs.Mode == "preflight")
+	if w.BootErr != "" {
+		// the configuration path of the tree under test refuses a configuration the unchanged tree
+		// accepts: a broken correspondence, reported through the judge (never a harness error)
+		return c.Case{Coq: "CaseBootFailed", JSON: map[string]interface{}{"world": w.Name, "spec": cs, "boot_error": w.BootErr}}
+	}
+	if !w.ConfigFlags {
+		proxy.VerifC03SetFlags(&w.pw.Cfg, cs.Pass, cs.Mode == "preflight")
+	}
 	sealed := placeholder
 	if cs.Mode == "auth" {
 		// every deadline comparison has a margin of minutes: "due" = 5 min in the past, else 10 h ahead
@@ -252,7 +386,11 @@ func run(ws []*world, backend *c.Backend, cs caseSpec, r *c.Rng) c.Case {
 	if err != nil { // the harness's own socket: retry once on a fresh connection
 		backend.Take()
 		status, setCookies, err = w.send(b.String(), closeAfter)
-		c.Must(err)
+		if err != nil {
+			// twice no HTTP response (e.g. the handler of the tree under test panics and the server
+			// drops the connection): an observation — nothing forwarded, status 0 — not a harness error
+			status, setCookies = 0, nil
+		}
 	}
 	seen := backend.Take()
 	if cs.Route == "none" {
@@ -302,15 +440,17 @@ var scrubs bool
 
 func probe(ws []*world, backend *c.Backend, r *c.Rng) {
 	w := ws[0]
+	scrubs = true // the code that exists (87f9230); only a tree that visibly forwards the probe header is compared with scrub := false
+	if w.BootErr != "" {
+		return
+	}
 	proxy.VerifC03SetFlags(&w.pw.Cfg, false, false)
 	backend.Take()
-	_, _, err := w.send("GET /public/probe HTTP/1.1\r\nHost: "+host+"\r\nX-Forwarded-User: probe\r\n\r\n", false)
-	c.Must(err)
+	w.send("GET /public/probe HTTP/1.1\r\nHost: "+host+"\r\nX-Forwarded-User: probe\r\n\r\n", false)
 	seen := backend.Take()
-	if len(seen) != 1 {
-		c.Must(fmt.Errorf("probe request was not forwarded"))
+	if len(seen) == 1 {
+		scrubs = len(seen[0].Header["X-Forwarded-User"]) == 0
 	}
-	scrubs = len(seen[0].Header["X-Forwarded-User"]) == 0
 }
 
 func coqSession(s sessSpec) string {
@@ -552,8 +692,10 @@ var connTokens = []string{"X-Forwarded-User", "X-Forwarded-Email", "X-Forwarded-
 func genCase(r *c.Rng, ws []*world) caseSpec {
 	var cs caseSpec
 	cs.World = r.Intn(len(ws))
-	if r.Chance(0.35) {
+	if r.Chance(0.3) {
 		cs.World = 0
+	} else if r.Chance(0.12) {
+		cs.World = len(ws) - 1 // the world booted from the environment
 	}
 	switch x := r.Intn(10); {
 	case x < 6:
@@ -566,6 +708,13 @@ func genCase(r *c.Rng, ws []*world) caseSpec {
 	cs.Pass = r.Chance(0.5)
 	cs.Sess = genSession(r)
 	w := ws[cs.World]
+	if w.ConfigFlags {
+		// what the operator wrote for this upstream: pass_access_token: false, skip_auth_preflight: false
+		cs.Pass = false
+		if r.Chance(0.5) && cs.Sess.Token == "" {
+			cs.Sess.Token = "tok-123"
+		}
+	}
 	if w.Allowed == nil && cs.Sess.Email == "" {
 		cs.Sess.Email = "x@y" // the "*" domain rule refuses an empty e-mail on every request
 	}
@@ -599,6 +748,11 @@ func genCase(r *c.Rng, ws []*world) caseSpec {
 		cs.Path = r.Pick([]string{"", "/public", "/publicx", "/public/favicon.ico", "/public/oauth2/auth", "/public/x?y=1"})
 	case "preflight":
 		cs.Path = r.Pick([]string{"", "/", "/oauth2/other", "/anything"})
+		if w.ConfigFlags {
+			// preflight exemption explicitly off: an OPTIONS request without a session must not
+			// reach the upstream
+			cs.Route = "none"
+		}
 	}
 	var hs [][2]string
 	// identity headers, any spelling, 0-3 values
@@ -684,6 +838,9 @@ var noUpstreamPaths = []string{"/robots.txt", "/oauth2/v1/certs", "/oauth2/auth"
 
 func genNoUpstream(r *c.Rng, ws []*world) caseSpec {
 	cs := genCase(r, ws)
+	if cs.Route == "none" {
+		return cs
+	}
 	cs.Route, cs.Due = "none", ""
 	cs.Path = r.Pick(noUpstreamPaths)
 	if cs.Path == "/favicon.ico" {
@@ -774,6 +931,14 @@ func corpus() []caseSpec {
 		{World: 0, Mode: "skip", Sess: s, Note: "cookie-name family 2", Headers: familyHeaders("_sso_proxy", 50, 120, sc)},
 		{World: 4, Mode: "auth", Sess: s, Note: "cookie-name family sid", Headers: familyHeaders("sid", 0, 80, "sid="+placeholder)},
 		{World: 0, Mode: "skip", Sess: s, Headers: [][2]string{ck("_sso_proxy_csrf=token; _sso_proxy_internal=1; _sso_proxy_=2; _sso_proxy=x; _sso_proxy__sso_proxy=3")}},
+		// the world booted from the environment: deployment defaults on, the upstream opts out explicitly
+		{World: 8, Mode: "auth", Pass: false, Sess: s, Note: "explicit pass_access_token: false", Headers: [][2]string{ck(sc)}},
+		{World: 8, Mode: "auth", Pass: false, Sess: s, Route: "favicon", Headers: [][2]string{ck(sc), {"X-Forwarded-Access-Token", "stolen"}}},
+		{World: 8, Mode: "auth", Pass: false, Sess: sessSpec{User: "bob", Email: "bob@corp.test", Groups: []string{"team"}, Token: "old-token"},
+			Due: "refresh", NewToken: "rotated-5", ProfileGroups: []string{"team", "eng"}, Headers: [][2]string{ck(sc)}},
+		{World: 8, Mode: "preflight", Route: "none", Path: "/private/api", Sess: s, Note: "explicit skip_auth_preflight: false",
+			Headers: [][2]string{{"X-Forwarded-User", "evil"}}},
+		{World: 8, Mode: "skip", Sess: s, Headers: [][2]string{ck(sc + "; keep=1"), {"X-Forwarded-Access-Token", "stolen"}}},
 		// routes that never reach the upstream
 		{World: 0, Mode: "auth", Route: "none", Path: "/oauth2/auth", Sess: s, Headers: [][2]string{ck(sc), {"X-Forwarded-User", "evil"}}},
 		{World: 0, Mode: "skip", Route: "none", Path: "/favicon.ico", Sess: s, Headers: [][2]string{{"X-Forwarded-Access-Token", "stolen"}}},
@@ -819,7 +984,9 @@ func main() {
 	defer func() {
 		for _, w := range ws {
 			w.reset()
-			w.srv.Close()
+			if w.srv != nil {
+				w.srv.Close()
+			}
 		}
 	}()
 	probe(ws, backend, r)
